@@ -45,6 +45,11 @@ func c05Lanes(r *Report, u *AsmUnit) {
 			continue
 		}
 		key := "amd64/" + rt.Name
+		if undef := VecDefBeforeUse(rt, flow); len(undef) > 0 {
+			r.Viol("REGISTER-DEFINED", key, "sm4/"+rt.File, undef[0])
+		} else {
+			r.Ok("REGISTER-DEFINED", key, "sm4/"+rt.File, "every vector register is written before it is read on every path")
+		}
 		// straight-line kernels only
 		straight := true
 		for _, in := range rt.Instrs {
